@@ -320,7 +320,7 @@ pub fn replay_file(ctx: &Ctx, parts: &[Part], literal: Option<LiteralFn>, path: 
         let f = literal.expect("property has no literal replay support");
         let known = load_known(&ctx.home, ctx.prop);
         // literal cases run in a child too (they may crash the process): re-exec self
-        let rep = if ctx.in_child { f(ctx, &v) } else { literal_in_child(ctx, path) };
+        let rep = if ctx.in_child || !parts.iter().any(|p| p.remote.is_some()) { f(ctx, &v) } else { literal_in_child(ctx, path) };
         return rep.failures.into_iter().partition(|f| classify(&known, f).is_some());
     }
     let genome: Vec<u16> = v["genome"].as_array().map(|a| a.iter().map(|x| x.as_u64().unwrap_or(0) as u16).collect()).unwrap_or_default();
